@@ -150,6 +150,10 @@ func c18Check(root string, doc []byte) (res fw.Result) {
 	}
 	// foreign paths
 	foreign := []string{absRoot, filepath.Dir(absRoot), filepath.Join(filepath.Dir(absRoot), "sibling", "x"), filepath.Join(absRoot, "no-such-package-dir", "x"), "/", filepath.Join(absRoot, "..", filepath.Base(absRoot)+"-evil", "x"), filepath.Join(absRoot, "..")}
+	for d := range dirs {
+		// e.g. /x/bundle-rootPKGDIR/sub/f: shares the root as a string prefix only
+		foreign = append(foreign, absRoot+filepath.Base(d)+"/sub/f", absRoot+filepath.Base(d))
+	}
 	mf := filepath.Join(absRoot, "terraform-sources.json")
 	if !dirs[mf] {
 		foreign = append(foreign, mf)
